@@ -222,6 +222,8 @@ class Verdict:
             mech = crash_mech(case, res) if crash_mech else 'process-death'
             self.violation(mech, dict(case=case, crash=res['crash']))
             return
+        if res.get('wall', 0) > getattr(self, 'slowest', (0, None))[0]:
+            self.slowest = (res['wall'], case)
         for v in res.get('violations', []):
             self.violation(v['mech'], dict(case=case, detail=v))
         for k, n in res.get('counters', {}).items():
@@ -294,6 +296,8 @@ class Verdict:
             verdict_word, self.prop, self.tier, self.seed, self.evaluations, len(self.cells), wall))
         for k in sorted(self.counters):
             print("  %-60s %d" % (k, self.counters[k]))
+        if getattr(self, 'slowest', None):
+            print("  slowest case %.1fs: %s" % (self.slowest[0], json.dumps(self.slowest[1], default=_jd)[:300]))
         return status
 
 
